@@ -27,6 +27,46 @@ def carry_families(bits):
     return [(a, b) for a, b in out if 0 <= a <= m and 0 <= b <= m]
 
 
+def sum_families(bits, rng, quick):
+    """Term lists whose limb-wise column sums carry INTO a column that is itself all ones (or wraps together with the
+    carry-in): an implementation that adds the columns first and ripples the carries afterwards must get every one of
+    these right, not only the pairwise case.  Seed T10-A (`Sum<&Uint>` via wide column accumulators) needed exactly this."""
+    if bits == 0:
+        return [[0, 0], [0, 0, 0]]
+    m = (1 << bits) - 1
+    L = (bits + 63) // 64
+    W = (1 << 64) - 1
+    out = []
+    for a, b in carry_families(bits):
+        out += [[a, b], [b, a, 0]]
+    fives = int("5" * 16 * L, 16) & m
+    aas = int("a" * 16 * L, 16) & m
+    out += [[fives, aas, 1], [fives, aas, 1, m], [aas, fives, 2, m - 1], [m, m, m, 3], [m, m, 2], [m] * 5, [m, 1, m, 1]]
+    for k in range(1, L + 1):
+        low = (1 << (64 * k)) - 1 if 64 * k < bits else m
+        out += [[low & m, 1], [low & m, low & m, 2], [low & m, low & m, low & m, 3]]
+        # column k-1 sums to 2 W (carry 1, low word W - 1); columns above are all ones: the carry must ripple through them
+        hi = m & ~low
+        out += [[(hi | W << (64 * (k - 1))) & m, (W << (64 * (k - 1))) & m, (1 << (64 * (k - 1))) & m],
+                [(hi | 1 << (64 * (k - 1))) & m, (W << (64 * (k - 1))) & m]]
+    for _ in range(4 if quick else 40):
+        # random all-ones / zero / W-1 limb patterns, 2..5 terms
+        n = rng.randint(2, 5)
+        xs = []
+        for _t in range(n):
+            v = 0
+            for i in range(L):
+                v |= rng.choice([0, 1, W, W - 1, W >> 1, 1 << 63, rng.getrandbits(64)]) << (64 * i)
+            xs.append(v & m)
+        out.append(xs)
+    out = [[x & m for x in xs] for xs in out]
+    if bits > 600:
+        # the same event also records the PRODUCT of the list, and a full x full product costs TLC seconds at these sizes:
+        # keep the lists in which all terms but one are tiny
+        out = [xs for xs in out if sum(1 for x in xs if x > 3) <= 1]
+    return out
+
+
 def scenarios(tier, rng):
     npairs = 260 if tier == "quick" else 2500
     sc = []
@@ -39,4 +79,6 @@ def scenarios(tier, rng):
             for rep in range(3 if tier == "quick" else 12):
                 xs = [rng.choice(vs) for _ in range(n)]
                 sc.append({"g": "arith", "op": "sum", "bits": bits, "xs": [tobytes(x) for x in xs]})
+        for xs in sum_families(bits, rng, tier == "quick"):
+            sc.append({"g": "arith", "op": "sum", "bits": bits, "xs": [tobytes(x) for x in xs]})
     return {"ux_arith": sc}
